@@ -523,6 +523,7 @@ auto quantiles_sketch<T, C, A>::deserialize(const void* bytes, size_t size, cons
 
   if (serial_version == 1) {
     uint64_t unused_long;
+    check_memory_size(sizeof(unused_long), end_ptr - ptr);
     ptr += copy_from_mem(ptr, unused_long); // no longer used
   }
 
